@@ -20,7 +20,7 @@ package scipipe
 //@   deterministic by-contract pure library function
 //@   ensures def: res == replaceAll(s, old, new)
 
-//@ define validPath(p string) bool = fullMatch(p, "[0-9A-Za-z/._-]+")
+//@ define validPath(p string) bool = matches(p, "^[0-9A-Za-z\\/\\.\\-_]+$")
 
 // ---------------------------------------------------------------------------
 // task.go: path helpers
@@ -652,8 +652,12 @@ package scipipe
 //@ ghost func joinStr(elems seq[string], sep string) string
 //@ ghost func reFindAll(pat string, s string) seq[seq[string]]
 
+//@ ghost func validRegex(expr string) bool
+//@ axiom validRegex.validpath: validRegex("^[0-9A-Za-z\\/\\.\\-_]+$")
+//@ axiom validRegex.placeholder: validRegex("{(o|os|i|is|p|t):([^{}]+)}")
 //@ extern regexp.Compile(expr) (res, err)
 //@   deterministic by-contract pure function of the pattern
+//@   ensures compiles: (err == nil) <==> validRegex(expr)
 //@   ensures lit: err == nil ==> res != nil && regexLit(res) == expr
 //@ extern (*regexp.Regexp).FindAllStringSubmatch(re, s, n) (res)
 //@   deterministic by-contract pure library function
@@ -1052,3 +1056,214 @@ package scipipe
 //@   loop 0 invariant upstream: forall j int, q ref :: 0 <= j && j < $i && q != nil && directUp(q, finalProcs[j]) ==> procName(q) in procsToRun
 //@   loop 0 invariant closed: forall k string, q ref :: k in procsToRun && q != nil && directUp(q, procOf(k)) ==> procName(q) in procsToRun
 //@   loop 0 invariant nothing-else: forall k string :: k in procsToRun ==> (exists j int :: 0 <= j && j < $i && k == procName(finalProcs[j])) || (exists k2 string :: k2 in procsToRun && directUp(procOf(k), procOf(k2)))
+
+// ---------------------------------------------------------------------------
+// C04 / C08: sending and closing (port.go)
+// ---------------------------------------------------------------------------
+
+// Ghost log of an out-port: the sequence of IPs handed to OutPort.Send (by the goroutine under verification).
+//@ ghost var outN arr[ref]int
+//@ ghost var outAt arr[ref]arr[int]ref
+// Ghost count of CloseConnection calls received by an in-port
+//@ ghost var closeCalls arr[ref]int
+
+// Every remote in-port of an out-port has its own channel, is registered under its own name, and is non-nil.
+//@ define wfOutPort(pt *OutPort) bool = pt.RemotePorts != nil && (forall r string :: r in pt.RemotePorts ==> pt.RemotePorts[r] != nil && pt.RemotePorts[r].Chan != nil) && (forall r1 string, r2 string :: r1 in pt.RemotePorts && r2 in pt.RemotePorts && r1 != r2 ==> pt.RemotePorts[r1] != pt.RemotePorts[r2] && pt.RemotePorts[r1].Chan != pt.RemotePorts[r2].Chan)
+//@ define isRemoteChan(pt *OutPort, c chan *FileIP) bool = exists r string :: r in pt.RemotePorts && pt.RemotePorts[r].Chan == c
+
+//@ func (*InPort).Send(pt, ip)
+//@   props C04 C08
+//@   modifies chan(pt.Chan)
+//@   ensures appended: chanSentN(pt.Chan) == old(chanSentN(pt.Chan)) + 1 && chanSentAt(pt.Chan, old(chanSentN(pt.Chan))) == ip
+//@   ensures earlier-kept: forall j int :: 0 <= j && j < old(chanSentN(pt.Chan)) ==> chanSentAt(pt.Chan, j) == old(chanSentAt(pt.Chan, j))
+//@   ensures no-receive: chanRecvN(pt.Chan) == old(chanRecvN(pt.Chan)) && chanRecvA(pt.Chan) == old(chanRecvA(pt.Chan)) && chanClosed(pt.Chan) == old(chanClosed(pt.Chan))
+
+//@ func (*OutPort).Send(pt, ip)
+//@   props C04 C08
+//@   requires wf: wfOutPort(pt)
+//@   modifies chan, outN, outAt
+//@   ghost set outAt = update(outAt, pt, update(outAt[pt], outN[pt], ip))
+//@   ghost set outN = update(outN, pt, outN[pt] + 1)
+//@   ensures each-remote-exactly-once[C04]: forall r string :: r in pt.RemotePorts ==> chanSentN(pt.RemotePorts[r].Chan) == old(chanSentN(pt.RemotePorts[r].Chan)) + 1 && chanSentAt(pt.RemotePorts[r].Chan, old(chanSentN(pt.RemotePorts[r].Chan))) == ip
+//@   ensures appended-at-end[C08]: forall r string, j int :: r in pt.RemotePorts && 0 <= j && j < old(chanSentN(pt.RemotePorts[r].Chan)) ==> chanSentAt(pt.RemotePorts[r].Chan, j) == old(chanSentAt(pt.RemotePorts[r].Chan, j))
+//@   ensures other-channels-untouched[C04]: forall c chan *FileIP :: !fresh(c) && !isRemoteChan(pt, c) ==> chanSentN(c) == old(chanSentN(c))
+//@   ensures logged: outN == update(old(outN), pt, old(outN)[pt] + 1) && outAt == update(old(outAt), pt, update(old(outAt)[pt], old(outN)[pt], ip))
+//@   loop 0 invariant vis: forall r string :: $visited[r] ==> r in pt.RemotePorts
+//@   loop 0 invariant sent: forall r string :: $visited[r] ==> chanSentN(pt.RemotePorts[r].Chan) == old(chanSentN(pt.RemotePorts[r].Chan)) + 1 && chanSentAt(pt.RemotePorts[r].Chan, old(chanSentN(pt.RemotePorts[r].Chan))) == ip
+//@   loop 0 invariant not-yet: forall r string :: r in pt.RemotePorts && !$visited[r] ==> chanSentN(pt.RemotePorts[r].Chan) == old(chanSentN(pt.RemotePorts[r].Chan))
+//@   loop 0 invariant earlier-kept: forall r string, j int :: r in pt.RemotePorts && 0 <= j && j < old(chanSentN(pt.RemotePorts[r].Chan)) ==> chanSentAt(pt.RemotePorts[r].Chan, j) == old(chanSentAt(pt.RemotePorts[r].Chan, j))
+//@   loop 0 invariant others: forall c chan *FileIP :: !fresh(c) && !isRemoteChan(pt, c) ==> chanSentN(c) == old(chanSentN(c))
+//@   loop 0 invariant log-untouched: outN == old(outN) && outAt == old(outAt)
+
+//@ func (*InPort).CloseConnection(pt, rptName)
+//@   props C04 C05
+//@   modifies pt.RemotePorts[*], chan(pt.Chan), locked, closeCalls
+//@   ghost set closeCalls = update(closeCalls, pt, closeCalls[pt] + 1)
+//@   ensures removed: !(rptName in pt.RemotePorts)
+//@   ensures others: forall k string :: k != rptName ==> ((k in pt.RemotePorts) <==> old(k in pt.RemotePorts)) && pt.RemotePorts[k] == old(pt.RemotePorts[k])
+//@   ensures channel-closed-iff-last-upstream[C04,C05]: chanClosed(pt.Chan) <==> (old(chanClosed(pt.Chan)) || len(pt.RemotePorts) == 0)
+//@   ensures nothing-sent: chanSentN(pt.Chan) == old(chanSentN(pt.Chan))
+//@   ensures counted: closeCalls == update(old(closeCalls), pt, old(closeCalls)[pt] + 1)
+//@   ensures lock-released: !locked[pt.closeLock]
+//@   atcall builtin.close under-lock-and-empty[C04]: locked[pt.closeLock] && len(pt.RemotePorts) == 0 && $arg0 == pt.Chan
+
+//@ define wfPortKeys(pt *OutPort) bool = forall r string :: r in pt.RemotePorts ==> pt.RemotePorts[r] != nil && r == procName(pt.RemotePorts[r].process) + "." + pt.RemotePorts[r].name && pt.RemotePorts[r].process != nil
+
+//@ func (*OutPort).Close(pt)
+//@   props C04 C05
+//@   requires wf: wfOutPort(pt) && wfPortKeys(pt) && pt.process != nil
+//@   requires in-ports-distinct-maps: forall r string :: r in pt.RemotePorts ==> pt.RemotePorts[r].RemotePorts != nil
+//@   modifies pt.RemotePorts[*], map[string]*OutPort, chan, locked, closeCalls
+//@   ensures all-disconnected: forall r string :: !(r in pt.RemotePorts)
+//@   ensures each-remote-notified-once[C04,C05]: forall r string :: old(r in pt.RemotePorts) ==> closeCalls[old(pt.RemotePorts[r])] == old(closeCalls)[old(pt.RemotePorts[r])] + 1
+//@   ensures removed-from-remote[C04]: forall r string :: old(r in pt.RemotePorts) ==> !((procName(pt.process) + "." + pt.name) in old(pt.RemotePorts[r]).RemotePorts)
+//@   ensures nothing-sent: forall c chan *FileIP :: !fresh(c) ==> chanSentN(c) == old(chanSentN(c))
+//@   loop 0 invariant vis: forall r string :: $visited[r] ==> old(r in pt.RemotePorts)
+//@   loop 0 invariant gone: forall r string :: $visited[r] ==> !(r in pt.RemotePorts)
+//@   loop 0 invariant kept: forall r string :: !$visited[r] ==> ((r in pt.RemotePorts) <==> old(r in pt.RemotePorts)) && pt.RemotePorts[r] == old(pt.RemotePorts[r])
+//@   loop 0 invariant notified: forall r string :: $visited[r] ==> closeCalls[old(pt.RemotePorts[r])] == old(closeCalls)[old(pt.RemotePorts[r])] + 1
+//@   loop 0 invariant not-yet: forall q *InPort :: !(exists r string :: $visited[r] && old(pt.RemotePorts[r]) == q) ==> closeCalls[q] == old(closeCalls)[q]
+//@   loop 0 invariant removed-from-remote: forall r string :: $visited[r] ==> !((procName(pt.process) + "." + pt.name) in old(pt.RemotePorts[r]).RemotePorts)
+//@   loop 0 invariant nothing-sent: forall c chan *FileIP :: !fresh(c) ==> chanSentN(c) == old(chanSentN(c))
+
+// ---- parameter-port twins ----
+//@ ghost var poutN arr[ref]int
+//@ ghost var poutAt arr[ref]arr[int]string
+//@ ghost var pcloseCalls arr[ref]int
+//@ define wfOutParamPort(pop *OutParamPort) bool = pop.RemotePorts != nil && (forall r string :: r in pop.RemotePorts ==> pop.RemotePorts[r] != nil && pop.RemotePorts[r].Chan != nil) && (forall r1 string, r2 string :: r1 in pop.RemotePorts && r2 in pop.RemotePorts && r1 != r2 ==> pop.RemotePorts[r1] != pop.RemotePorts[r2] && pop.RemotePorts[r1].Chan != pop.RemotePorts[r2].Chan)
+//@ define isRemoteParamChan(pop *OutParamPort, c chan string) bool = exists r string :: r in pop.RemotePorts && pop.RemotePorts[r].Chan == c
+
+//@ func (*InParamPort).Send(pip, param)
+//@   props C04 C08
+//@   modifies chan(pip.Chan)
+//@   ensures appended: chanSentN(pip.Chan) == old(chanSentN(pip.Chan)) + 1 && chanSentAt(pip.Chan, old(chanSentN(pip.Chan))) == param
+//@   ensures earlier-kept: forall j int :: 0 <= j && j < old(chanSentN(pip.Chan)) ==> chanSentAt(pip.Chan, j) == old(chanSentAt(pip.Chan, j))
+//@   ensures no-receive: chanRecvN(pip.Chan) == old(chanRecvN(pip.Chan)) && chanRecvA(pip.Chan) == old(chanRecvA(pip.Chan)) && chanClosed(pip.Chan) == old(chanClosed(pip.Chan))
+
+//@ func (*OutParamPort).Send(pop, param)
+//@   props C04 C08
+//@   requires wf: wfOutParamPort(pop)
+//@   modifies chan, poutN, poutAt
+//@   ghost set poutAt = update(poutAt, pop, update(poutAt[pop], poutN[pop], param))
+//@   ghost set poutN = update(poutN, pop, poutN[pop] + 1)
+//@   ensures each-remote-exactly-once[C04]: forall r string :: r in pop.RemotePorts ==> chanSentN(pop.RemotePorts[r].Chan) == old(chanSentN(pop.RemotePorts[r].Chan)) + 1 && chanSentAt(pop.RemotePorts[r].Chan, old(chanSentN(pop.RemotePorts[r].Chan))) == param
+//@   ensures appended-at-end[C08]: forall r string, j int :: r in pop.RemotePorts && 0 <= j && j < old(chanSentN(pop.RemotePorts[r].Chan)) ==> chanSentAt(pop.RemotePorts[r].Chan, j) == old(chanSentAt(pop.RemotePorts[r].Chan, j))
+//@   ensures other-channels-untouched[C04]: forall c chan string :: !fresh(c) && !isRemoteParamChan(pop, c) ==> chanSentN(c) == old(chanSentN(c))
+//@   ensures logged: poutN == update(old(poutN), pop, old(poutN)[pop] + 1) && poutAt == update(old(poutAt), pop, update(old(poutAt)[pop], old(poutN)[pop], param))
+//@   loop 0 invariant vis: forall r string :: $visited[r] ==> r in pop.RemotePorts
+//@   loop 0 invariant sent: forall r string :: $visited[r] ==> chanSentN(pop.RemotePorts[r].Chan) == old(chanSentN(pop.RemotePorts[r].Chan)) + 1 && chanSentAt(pop.RemotePorts[r].Chan, old(chanSentN(pop.RemotePorts[r].Chan))) == param
+//@   loop 0 invariant not-yet: forall r string :: r in pop.RemotePorts && !$visited[r] ==> chanSentN(pop.RemotePorts[r].Chan) == old(chanSentN(pop.RemotePorts[r].Chan))
+//@   loop 0 invariant earlier-kept: forall r string, j int :: r in pop.RemotePorts && 0 <= j && j < old(chanSentN(pop.RemotePorts[r].Chan)) ==> chanSentAt(pop.RemotePorts[r].Chan, j) == old(chanSentAt(pop.RemotePorts[r].Chan, j))
+//@   loop 0 invariant others: forall c chan string :: !fresh(c) && !isRemoteParamChan(pop, c) ==> chanSentN(c) == old(chanSentN(c))
+//@   loop 0 invariant log-untouched: poutN == old(poutN) && poutAt == old(poutAt)
+
+//@ func (*InParamPort).CloseConnection(pip, popName)
+//@   props C04 C05
+//@   modifies pip.RemotePorts[*], chan(pip.Chan), locked, pcloseCalls
+//@   ghost set pcloseCalls = update(pcloseCalls, pip, pcloseCalls[pip] + 1)
+//@   ensures removed: !(popName in pip.RemotePorts)
+//@   ensures others: forall k string :: k != popName ==> ((k in pip.RemotePorts) <==> old(k in pip.RemotePorts)) && pip.RemotePorts[k] == old(pip.RemotePorts[k])
+//@   ensures channel-closed-iff-last-upstream[C04,C05]: chanClosed(pip.Chan) <==> (old(chanClosed(pip.Chan)) || len(pip.RemotePorts) == 0)
+//@   ensures nothing-sent: chanSentN(pip.Chan) == old(chanSentN(pip.Chan))
+//@   ensures counted: pcloseCalls == update(old(pcloseCalls), pip, old(pcloseCalls)[pip] + 1)
+//@   ensures lock-released: !locked[pip.closeLock]
+//@   atcall builtin.close under-lock-and-empty[C04]: locked[pip.closeLock] && len(pip.RemotePorts) == 0 && $arg0 == pip.Chan
+
+//@ define wfParamPortKeys(pop *OutParamPort) bool = forall r string :: r in pop.RemotePorts ==> pop.RemotePorts[r] != nil && r == procName(pop.RemotePorts[r].process) + "." + pop.RemotePorts[r].name && pop.RemotePorts[r].process != nil
+
+//@ func (*OutParamPort).Close(pop)
+//@   props C04 C05
+//@   requires wf: wfOutParamPort(pop) && wfParamPortKeys(pop) && pop.process != nil
+//@   modifies pop.RemotePorts[*], map[string]*OutParamPort, chan, locked, pcloseCalls
+//@   ensures all-disconnected: forall r string :: !(r in pop.RemotePorts)
+//@   ensures each-remote-notified-once[C04,C05]: forall r string :: old(r in pop.RemotePorts) ==> pcloseCalls[old(pop.RemotePorts[r])] == old(pcloseCalls)[old(pop.RemotePorts[r])] + 1
+//@   ensures nothing-sent: forall c chan string :: !fresh(c) ==> chanSentN(c) == old(chanSentN(c))
+//@   loop 0 invariant vis: forall r string :: $visited[r] ==> old(r in pop.RemotePorts)
+//@   loop 0 invariant gone: forall r string :: $visited[r] ==> !(r in pop.RemotePorts)
+//@   loop 0 invariant kept: forall r string :: !$visited[r] ==> ((r in pop.RemotePorts) <==> old(r in pop.RemotePorts)) && pop.RemotePorts[r] == old(pop.RemotePorts[r])
+//@   loop 0 invariant notified: forall r string :: $visited[r] ==> pcloseCalls[old(pop.RemotePorts[r])] == old(pcloseCalls)[old(pop.RemotePorts[r])] + 1
+//@   loop 0 invariant not-yet: forall q *InParamPort :: !(exists r string :: $visited[r] && old(pop.RemotePorts[r]) == q) ==> pcloseCalls[q] == old(pcloseCalls)[q]
+//@   loop 0 invariant nothing-sent: forall c chan string :: !fresh(c) ==> chanSentN(c) == old(chanSentN(c))
+
+// ---------------------------------------------------------------------------
+// C04: one item per in-port per task (baseprocess.go)
+// ---------------------------------------------------------------------------
+
+//@ define wfInPorts(m map[string]*InPort) bool = m != nil && (forall k string :: k in m ==> m[k] != nil && m[k].Chan != nil) && (forall k1 string, k2 string :: k1 in m && k2 in m && k1 != k2 ==> m[k1].Chan != m[k2].Chan)
+//@ define isInChan(m map[string]*InPort, c chan *FileIP) bool = exists k string :: k in m && m[k].Chan == c
+
+//@ func (*BaseProcess).receiveOnInPorts(p) (ips, inPortsOpen)
+//@   props C04 C08
+//@   requires wf: wfInPorts(p.inPorts)
+//@   modifies chan, new(map[string]*FileIP)
+//@   ensures fresh: fresh(ips) && ips != nil
+//@   ensures one-receive-per-port: forall k string :: k in p.inPorts ==> chanRecvA(p.inPorts[k].Chan) == old(chanRecvA(p.inPorts[k].Chan)) + 1 && chanRecvN(p.inPorts[k].Chan) == old(chanRecvN(p.inPorts[k].Chan)) + ite(old(chanRecvN(p.inPorts[k].Chan)) < chanTotal(p.inPorts[k].Chan), 1, 0)
+//@   ensures open-iff-every-port-delivered: inPortsOpen <==> (forall k string :: k in p.inPorts ==> old(chanRecvN(p.inPorts[k].Chan)) < chanTotal(p.inPorts[k].Chan))
+//@   ensures items-in-arrival-order: forall k string :: k in p.inPorts && old(chanRecvN(p.inPorts[k].Chan)) < chanTotal(p.inPorts[k].Chan) ==> k in ips && ips[k] == chanInAt(p.inPorts[k].Chan, old(chanRecvN(p.inPorts[k].Chan)))
+//@   ensures only-ports: forall k string :: k in ips ==> k in p.inPorts
+//@   ensures other-channels-untouched: forall c chan *FileIP :: !fresh(c) && !isInChan(p.inPorts, c) ==> chanRecvN(c) == old(chanRecvN(c)) && chanRecvA(c) == old(chanRecvA(c))
+//@   ensures nothing-sent: forall c chan *FileIP :: !fresh(c) ==> chanSentN(c) == old(chanSentN(c))
+//@   loop 0 invariant fresh: fresh(ips) && ips != nil
+//@   loop 0 invariant vis: forall k string :: $visited[k] ==> k in p.inPorts
+//@   loop 0 invariant done: forall k string :: $visited[k] ==> chanRecvA(p.inPorts[k].Chan) == old(chanRecvA(p.inPorts[k].Chan)) + 1 && chanRecvN(p.inPorts[k].Chan) == old(chanRecvN(p.inPorts[k].Chan)) + ite(old(chanRecvN(p.inPorts[k].Chan)) < chanTotal(p.inPorts[k].Chan), 1, 0)
+//@   loop 0 invariant not-yet: forall k string :: k in p.inPorts && !$visited[k] ==> chanRecvA(p.inPorts[k].Chan) == old(chanRecvA(p.inPorts[k].Chan)) && chanRecvN(p.inPorts[k].Chan) == old(chanRecvN(p.inPorts[k].Chan))
+//@   loop 0 invariant open: inPortsOpen <==> (forall k string :: $visited[k] ==> old(chanRecvN(p.inPorts[k].Chan)) < chanTotal(p.inPorts[k].Chan))
+//@   loop 0 invariant items: forall k string :: $visited[k] && old(chanRecvN(p.inPorts[k].Chan)) < chanTotal(p.inPorts[k].Chan) ==> k in ips && ips[k] == chanInAt(p.inPorts[k].Chan, old(chanRecvN(p.inPorts[k].Chan)))
+//@   loop 0 invariant only-ports: forall k string :: k in ips ==> $visited[k]
+//@   loop 0 invariant others: forall c chan *FileIP :: !fresh(c) && !isInChan(p.inPorts, c) ==> chanRecvN(c) == old(chanRecvN(c)) && chanRecvA(c) == old(chanRecvA(c))
+//@   loop 0 invariant nothing-sent: forall c chan *FileIP :: !fresh(c) ==> chanSentN(c) == old(chanSentN(c))
+
+//@ define wfInParamPorts(m map[string]*InParamPort) bool = m != nil && (forall k string :: k in m ==> m[k] != nil && m[k].Chan != nil) && (forall k1 string, k2 string :: k1 in m && k2 in m && k1 != k2 ==> m[k1].Chan != m[k2].Chan)
+//@ define isInParamChan(m map[string]*InParamPort, c chan string) bool = exists k string :: k in m && m[k].Chan == c
+
+//@ func (*BaseProcess).receiveOnInParamPorts(p) (params, paramPortsOpen)
+//@   props C04 C08
+//@   requires wf: wfInParamPorts(p.inParamPorts)
+//@   modifies chan, new(map[string]string)
+//@   ensures fresh: fresh(params) && params != nil
+//@   ensures one-receive-per-port: forall k string :: k in p.inParamPorts ==> chanRecvA(p.inParamPorts[k].Chan) == old(chanRecvA(p.inParamPorts[k].Chan)) + 1 && chanRecvN(p.inParamPorts[k].Chan) == old(chanRecvN(p.inParamPorts[k].Chan)) + ite(old(chanRecvN(p.inParamPorts[k].Chan)) < chanTotal(p.inParamPorts[k].Chan), 1, 0)
+//@   ensures open-iff-every-port-delivered: paramPortsOpen <==> (forall k string :: k in p.inParamPorts ==> old(chanRecvN(p.inParamPorts[k].Chan)) < chanTotal(p.inParamPorts[k].Chan))
+//@   ensures items-in-arrival-order: forall k string :: k in p.inParamPorts && old(chanRecvN(p.inParamPorts[k].Chan)) < chanTotal(p.inParamPorts[k].Chan) ==> k in params && params[k] == chanInAt(p.inParamPorts[k].Chan, old(chanRecvN(p.inParamPorts[k].Chan)))
+//@   ensures only-ports: forall k string :: k in params ==> k in p.inParamPorts
+//@   ensures other-channels-untouched: forall c chan string :: !fresh(c) && !isInParamChan(p.inParamPorts, c) ==> chanRecvN(c) == old(chanRecvN(c)) && chanRecvA(c) == old(chanRecvA(c))
+//@   loop 0 invariant fresh: fresh(params) && params != nil
+//@   loop 0 invariant vis: forall k string :: $visited[k] ==> k in p.inParamPorts
+//@   loop 0 invariant done: forall k string :: $visited[k] ==> chanRecvA(p.inParamPorts[k].Chan) == old(chanRecvA(p.inParamPorts[k].Chan)) + 1 && chanRecvN(p.inParamPorts[k].Chan) == old(chanRecvN(p.inParamPorts[k].Chan)) + ite(old(chanRecvN(p.inParamPorts[k].Chan)) < chanTotal(p.inParamPorts[k].Chan), 1, 0)
+//@   loop 0 invariant not-yet: forall k string :: k in p.inParamPorts && !$visited[k] ==> chanRecvA(p.inParamPorts[k].Chan) == old(chanRecvA(p.inParamPorts[k].Chan)) && chanRecvN(p.inParamPorts[k].Chan) == old(chanRecvN(p.inParamPorts[k].Chan))
+//@   loop 0 invariant open: paramPortsOpen <==> (forall k string :: $visited[k] ==> old(chanRecvN(p.inParamPorts[k].Chan)) < chanTotal(p.inParamPorts[k].Chan))
+//@   loop 0 invariant items: forall k string :: $visited[k] && old(chanRecvN(p.inParamPorts[k].Chan)) < chanTotal(p.inParamPorts[k].Chan) ==> k in params && params[k] == chanInAt(p.inParamPorts[k].Chan, old(chanRecvN(p.inParamPorts[k].Chan)))
+//@   loop 0 invariant only-ports: forall k string :: k in params ==> $visited[k]
+//@   loop 0 invariant others: forall c chan string :: !fresh(c) && !isInParamChan(p.inParamPorts, c) ==> chanRecvN(c) == old(chanRecvN(c)) && chanRecvA(c) == old(chanRecvA(c))
+
+// ---------------------------------------------------------------------------
+// ip.go: creating IPs (C09 invalid output path, C02/C11 audit record of existing files)
+// ---------------------------------------------------------------------------
+
+//@ func pathIsValid(path) (res, err)
+//@   props C09
+//@   ensures def: err == nil && (res <==> validPath(path))
+
+//@ func NewBaseIP(path) (res)
+//@   props C09
+//@   modifies fresh
+//@   ensures fresh: res != nil && fresh(res) && res.path == path && res.auditInfo == nil
+
+//@ func NewInPort(name) (inp)
+//@   props C04
+//@   trusted reads SCIPIPE_BUFSIZE via getBufsize (os.LookupEnv, strconv); only freshness and emptiness of the new port are relied upon
+//@   modifies fresh
+//@   ensures fresh: inp != nil && fresh(inp) && inp.Chan != nil && fresh(inp.Chan) && inp.RemotePorts != nil && fresh(inp.RemotePorts) && len(inp.RemotePorts) == 0 && !inp.ready && inp.name == name
+//@   ensures empty-channel: chanSentN(inp.Chan) == 0 && chanRecvN(inp.Chan) == 0 && !chanClosed(inp.Chan)
+
+//@ func (*FileIP).Exists(ip) (res)
+//@   props C02
+//@   modifies locked
+//@   ensures def: res <==> statOK(fsEpoch, ip.path)
+
+//@ func NewFileIP(path) (res, err)
+//@   props C02 C09 C11
+//@   modifies fresh, locked
+//@   ensures invalid-path-is-an-error[C09]: (err == nil) <==> validPath(path)
+//@   ensures fresh: err == nil ==> res != nil && fresh(res) && res.path == path && !res.doStream && res.SubStream != nil && fresh(res.SubStream) && res.lock != nil
+//@   ensures existing-file-carries-its-record[C02,C11]: err == nil && statOK(fsEpoch, path) ==> res.auditInfo == loadedAudit(path + ".audit.json", fsEpoch)
+//@   ensures no-effects: effCreated == old(effCreated) && effMkdir == old(effMkdir) && effRenamed == old(effRenamed) && effRemoved == old(effRemoved) && effExec == old(effExec)
